@@ -179,7 +179,10 @@ type scenario struct {
 	Drain  int        `json:"drain_ms"`
 	ExitAt int        `json:"shutdown_returned_at"`
 	AccAft bool       `json:"accepted_after_shutdown"`
-	Err    string     `json:"harness_error,omitempty"`
+	// a NEW connection attempted while the drain was running: refused | served | unserved | not-probed
+	DrainProbe   string `json:"new_connection_in_drain_window"`
+	DrainProbeAt int    `json:"new_connection_at"`
+	Err          string `json:"harness_error,omitempty"`
 }
 
 func c11Server(run *Run, dir string) int {
@@ -367,8 +370,48 @@ func c11Server(run *Run, dir string) int {
 		}
 		time.Sleep(time.Until(origin.Add(time.Duration(sc.Signal) * time.Millisecond)))
 		sc.SigObs = ms()
-		handler.GracefulStopListener(nil, sc.Name)
-		sc.ExitAt = ms()
+		returned := make(chan struct{})
+		go func() {
+			handler.GracefulStopListener(nil, sc.Name)
+			sc.ExitAt = ms()
+			close(returned)
+		}()
+		// a NEW client inside the drain window: it must be refused, or - if it gets a connection - be served
+		sc.DrainProbe = "not-probed"
+		select {
+		case <-returned:
+		case <-time.After(35 * time.Millisecond):
+			sc.DrainProbeAt = ms()
+			nc, err := dialLocal(sc.Addr, 150*time.Millisecond)
+			select {
+			case <-returned:
+				// Shutdown returned while we were connecting: not an observation of the drain window
+				if err == nil {
+					nc.Close()
+				}
+			default:
+				if err != nil {
+					sc.DrainProbe = "refused"
+				} else {
+					sc.DrainProbe = "unserved"
+					body, _ := json.Marshal(script{})
+					nc.SetDeadline(time.Now().Add(time.Duration(sc.Drain+400) * time.Millisecond))
+					nc.Write(boltRequest(4242, body))
+					for {
+						typ, _, id, _, err := readBoltFrame(nc)
+						if err != nil {
+							break
+						}
+						if typ == 0 && id == 4242 {
+							sc.DrainProbe = "served"
+							break
+						}
+					}
+					nc.Close()
+				}
+			}
+		}
+		<-returned
 		// no new connection after the stop
 		if c, err := dialLocal(sc.Addr, 150*time.Millisecond); err == nil {
 			sc.AccAft = true
@@ -438,11 +481,14 @@ func c11Server(run *Run, dir string) int {
 				}
 			}
 		}
+		if sc.DrainProbe == "unserved" {
+			run.Fail("shutdown:connection-established-in-drain-window-never-served", fmt.Sprintf("graceful stop at %d ms with a request in flight; a new client connected at %d ms (Shutdown returned at %d ms): the connection was established but its request was never answered - neither refused nor served", sc.SigObs, sc.DrainProbeAt, sc.ExitAt), map[string]interface{}{"part": "drain", "scenario": sc})
+		}
 		if sc.AccAft {
 			run.Fail("listener:accepted-after-graceful-stop", "a TCP connect succeeded after GracefulStopListener returned", map[string]interface{}{"part": "drain", "scenario": sc})
 		}
 		rep := map[string]interface{}{"part": "drain", "scenario": sc, "phase_at_signal": phase}
-		kinds := []string{"drain-phase=" + phase, fmt.Sprintf("drain-requests=%d", len(sc.Reqs))}
+		kinds := []string{"drain-phase=" + phase, fmt.Sprintf("drain-requests=%d", len(sc.Reqs)), "drain-window-new-connection=" + sc.DrainProbe}
 		if racy {
 			kinds = append(kinds, "drain-signal-on-boundary-not-compared")
 		}
